@@ -131,7 +131,16 @@ func (g *guardEngine) valKey1(v ssa.Value, depth int) string {
 			return ""
 		}
 		return b + "[" + i + "]"
-	case *ssa.Phi, *ssa.Call, *ssa.Extract, *ssa.Slice, *ssa.Lookup, *ssa.BinOp, *ssa.Convert, *ssa.ChangeType, *ssa.TypeAssert, *ssa.MakeSlice, *ssa.Index, *ssa.Next:
+	case *ssa.TypeAssert:
+		// a non-comma-ok assertion of a pure value to a fixed type is itself pure: m.(*T) twice
+		// denotes the same object
+		if !x.CommaOk {
+			if b := g.valKey1(x.X, depth+1); b != "" && !strings.HasPrefix(b, "r:") {
+				return b + ".(" + x.AssertedType.String() + ")"
+			}
+		}
+		return fmt.Sprintf("r:%s", v.Name())
+	case *ssa.Phi, *ssa.Call, *ssa.Extract, *ssa.Slice, *ssa.Lookup, *ssa.BinOp, *ssa.Convert, *ssa.ChangeType, *ssa.MakeSlice, *ssa.Index, *ssa.Next:
 		// SSA registers are single-assignment: identity is the name within the function
 		return fmt.Sprintf("r:%s", v.Name())
 	}
@@ -267,6 +276,15 @@ func (g *guardEngine) minLenByConstruction(x ssa.Value, depth int) int64 {
 		return g.minLenByConstruction(v.X, depth+1)
 	case *ssa.Parameter:
 		return g.paramMinLen(v, depth)
+	}
+	// a slice whose length is a known constant (made, cut, or returned by a helper with it)
+	switch x.(type) {
+	case *ssa.Extract, *ssa.Call, *ssa.Slice:
+		if n := g.symLen(x, depth); n != nil {
+			if k, ok := constInt(n); ok && k > 0 {
+				return k
+			}
+		}
 	}
 	// field of an object handed in as a parameter: what the callers' guards establish about
 	// that field of their argument
@@ -666,6 +684,9 @@ func (g *guardEngine) discharge(s guardSite) string {
 		if s.needLen == 1 && g.ensuredNonEmpty(s, x) {
 			return "ensure-non-empty idiom: a dominating `if len(x.F) == 0 { x.F = <non-empty> }` precedes the site"
 		}
+		if m := g.storedMinLen(s, x); m >= s.needLen {
+			return fmt.Sprintf("the field was just assigned a value of length >= %d (append of an element, or a callee that appends on success)", m)
+		}
 		if s.needLen == 1 && g.validIndexExists(s, x) {
 			return "an index of the same slice returned by a search helper is known to be >= 0 here, so the slice is not empty"
 		}
@@ -757,10 +778,23 @@ func (g *guardEngine) discharge(s guardSite) string {
 			return "dominating guard bound <= len"
 		}
 	}
+	// the element just appended: x.f = append(y, e…); x.f[len(y)]
+	if y := lenArg(s.idx); y != nil && !s.idxIsBound {
+		if st := g.dominatingFieldStore(s, x); st != nil {
+			if call, ok := st.Val.(*ssa.Call); ok {
+				if bi, ok := call.Call.Value.(*ssa.Builtin); ok && bi.Name() == "append" && len(call.Call.Args) == 2 && (call.Call.Args[0] == y || g.same(call.Call.Args[0], y)) && g.minLenByConstruction(call.Call.Args[1], 0) >= 1 {
+					return "index of the element just appended (len of the slice before the append)"
+				}
+			}
+		}
+	}
 	// len(x)-k with len(x) >= k established
 	if sub, ok := s.idx.(*ssa.BinOp); ok && sub.Op == token.SUB {
 		if lx := lenArg(sub.X); lx != nil && g.same(lx, x) {
 			if k, ok := constInt(sub.Y); ok && k >= 1 {
+				if m := g.storedMinLen(s, x); m >= k {
+					return fmt.Sprintf("len-%d right after the field was assigned a value of length >= %d", k, m)
+				}
 				if m := g.minLenByConstruction(x, 0); m >= k {
 					return fmt.Sprintf("len-%d with len >= %d by construction", k, m)
 				}
@@ -1149,6 +1183,10 @@ func (g *guardEngine) symLen(x ssa.Value, depth int) ssa.Value {
 	switch v := x.(type) {
 	case *ssa.MakeSlice:
 		return stripIntConvert(v.Len)
+	case *ssa.Slice:
+		if v.Low == nil && v.High != nil {
+			return stripIntConvert(v.High) // x[:h] has length h (the slice expression succeeded)
+		}
 	case *ssa.Extract:
 		if call, ok := v.Tuple.(*ssa.Call); ok {
 			return g.symLenOfResult(call, v.Index, depth)
@@ -1195,6 +1233,11 @@ func (g *guardEngine) symLenOfResult(call *ssa.Call, idx int, depth int) ssa.Val
 		}
 		if idx >= len(ret.Results) {
 			return nil
+		}
+		if k, isConst := ret.Results[idx].(*ssa.Const); isConst && k.IsNil() && len(ret.Results) > 1 {
+			if e, isE := ret.Results[len(ret.Results)-1].(*ssa.Const); !isE || !e.IsNil() {
+				continue // an error return: the caller does not use the slice
+			}
 		}
 		n := g.symLen(ret.Results[idx], depth+1)
 		par, ok := n.(*ssa.Parameter)
@@ -1525,4 +1568,168 @@ func (g *guardEngine) validIndexExists(s guardSite, x ssa.Value) bool {
 		}
 	}
 	return false
+}
+
+// fieldAddrOf: x is a load of a struct field; returns the FieldAddr.
+func fieldAddrOf(x ssa.Value) *ssa.FieldAddr {
+	ld, ok := x.(*ssa.UnOp)
+	if !ok || ld.Op != token.MUL {
+		return nil
+	}
+	fa, _ := ld.X.(*ssa.FieldAddr)
+	return fa
+}
+
+// dominatingFieldStore: x is a load of field F of some object; the store to the same field of
+// the same object that dominates the site, provided every other store to that field in the
+// function dominates that store (so it is the last one before the site).
+func (g *guardEngine) dominatingFieldStore(s guardSite, x ssa.Value) *ssa.Store {
+	fa := fieldAddrOf(x)
+	if fa == nil {
+		return nil
+	}
+	var stores []*ssa.Store
+	for _, b := range s.fn.Blocks {
+		for _, ins := range b.Instrs {
+			st, ok := ins.(*ssa.Store)
+			if !ok {
+				continue
+			}
+			fa2, ok := st.Addr.(*ssa.FieldAddr)
+			if ok && fa2.Field == fa.Field && (fa2.X == fa.X || g.same(fa2.X, fa.X)) {
+				stores = append(stores, st)
+			}
+		}
+	}
+	var last *ssa.Store
+	for _, st := range stores {
+		if instrDominates(st, s.ins) && (last == nil || instrDominates(last, st)) {
+			last = st
+		}
+	}
+	if last == nil {
+		return nil
+	}
+	for _, st := range stores {
+		if st != last && !instrDominates(st, last) && !instrDominates(s.ins, st) {
+			return nil // another store may come between
+		}
+	}
+	return last
+}
+
+// storedMinLen: a lower bound on len(x) for a field load x at the site, from the store that
+// last assigned the field (an append of known minimum length), or from a dominating call of a
+// module function that received the field's address and appends to it on every successful
+// return, when the site is only reached after that call succeeded.
+func (g *guardEngine) storedMinLen(s guardSite, x ssa.Value) int64 {
+	fa := fieldAddrOf(x)
+	if fa == nil {
+		return 0
+	}
+	if st := g.dominatingFieldStore(s, x); st != nil {
+		if m := g.minLenByConstruction(st.Val, 0); m > 0 {
+			return m
+		}
+	}
+	for _, b := range s.fn.Blocks {
+		for _, ins := range b.Instrs {
+			call, ok := ins.(*ssa.Call)
+			if !ok || !instrDominates(call, s.ins) {
+				continue
+			}
+			callee := call.Call.StaticCallee()
+			if callee == nil || !fnInModule(callee) || len(callee.Blocks) == 0 {
+				continue
+			}
+			for i, a := range call.Call.Args {
+				fa2, ok := a.(*ssa.FieldAddr)
+				if !ok || fa2.Field != fa.Field || !(fa2.X == fa.X || g.same(fa2.X, fa.X)) || i >= len(callee.Params) {
+					continue
+				}
+				if !appendsOnSuccess(callee, callee.Params[i]) {
+					continue
+				}
+				// the site is unreachable when the call's error is non-nil
+				carriers := map[ssa.Value]bool{}
+				var errv ssa.Value = call
+				if tup, isTuple := call.Type().(*types.Tuple); isTuple && call.Referrers() != nil {
+					errv = nil
+					for _, r := range *call.Referrers() {
+						if ex, ok := r.(*ssa.Extract); ok && ex.Index == tup.Len()-1 {
+							errv = ex
+						}
+					}
+				}
+				if errv == nil {
+					continue
+				}
+				for _, fl := range flowsOf(errv) {
+					carriers[fl] = true
+				}
+				reach := reachUnder(s.fn, func(cond ssa.Value) int {
+					if cmp, ok := cond.(*ssa.BinOp); ok && (carriers[cmp.X] || carriers[cmp.Y]) {
+						switch cmp.Op {
+						case token.NEQ:
+							return 1
+						case token.EQL:
+							return -1
+						}
+					}
+					return 0
+				})
+				if !reach[s.ins.Block()] {
+					return 1
+				}
+			}
+		}
+	}
+	return 0
+}
+
+// appendsOnSuccess: every return of h whose error result is the nil constant is dominated by
+// a store *par = append(*par, one or more elements).
+func appendsOnSuccess(h *ssa.Function, par *ssa.Parameter) bool {
+	var appends []*ssa.Store
+	for _, b := range h.Blocks {
+		for _, ins := range b.Instrs {
+			st, ok := ins.(*ssa.Store)
+			if !ok || st.Addr != ssa.Value(par) {
+				continue
+			}
+			call, ok := st.Val.(*ssa.Call)
+			if !ok {
+				continue
+			}
+			if bi, ok := call.Call.Value.(*ssa.Builtin); ok && bi.Name() == "append" && len(call.Call.Args) == 2 {
+				if ld, ok := call.Call.Args[0].(*ssa.UnOp); ok && ld.X == ssa.Value(par) {
+					appends = append(appends, st)
+				}
+			}
+		}
+	}
+	if len(appends) == 0 {
+		return false
+	}
+	n := 0
+	for _, b := range h.Blocks {
+		ret, ok := b.Instrs[len(b.Instrs)-1].(*ssa.Return)
+		if !ok || len(ret.Results) == 0 {
+			continue
+		}
+		if k, isConst := ret.Results[len(ret.Results)-1].(*ssa.Const); !isConst || !k.IsNil() {
+			continue // an error return
+		}
+		n++
+		covered := false
+		for _, st := range appends {
+			if instrDominates(st, ret) {
+				covered = true
+			}
+		}
+		if !covered {
+			return false
+		}
+	}
+	return n > 0
 }
